@@ -338,7 +338,10 @@ func (c *fileCtx) block(list []ast.Stmt) {
 
 func (c *fileCtx) yieldText(pos token.Pos, kind string) string {
 	id := newSite(c.fset, pos, kind, c.fn)
-	if kind == "store" || kind == "hot" {
+	if kind == "hot" || kind == "gstore" {
+		return fmt.Sprintf("%s.YieldG(%d)", alias, id)
+	}
+	if kind == "store" {
 		return fmt.Sprintf("%s.YieldW(%d)", alias, id)
 	}
 	return fmt.Sprintf("%s.Yield(%d)", alias, id)
@@ -502,7 +505,7 @@ func (c *fileCtx) stmt(st ast.Stmt, inList bool) {
 				op = "-"
 			}
 			l := c.text(n.X)
-			c.replace(n.Pos(), n.End(), fmt.Sprintf("{ t__ := %s %s 1; %s; %s = t__ }", l, op, c.yieldText(n.Pos(), "store"), l))
+			c.replace(n.Pos(), n.End(), fmt.Sprintf("{ t__ := %s %s 1; %s; %s = t__ }", l, op, c.yieldText(n.Pos(), c.storeKind(n.X)), l))
 			return
 		}
 		c.walkExpr(n.X)
@@ -702,6 +705,26 @@ func simpleOperand(e ast.Expr) bool {
 	return ok
 }
 
+// storeKind: stores to plain identifiers are, by construction of splittable, stores
+// to package-level or captured variables ("gstore": certainly shared memory); in the
+// typed mode everything else (fields, elements, dereferences) is "store".
+func (c *fileCtx) storeKind(l ast.Expr) string {
+	if c.info == nil {
+		return "store"
+	}
+	for {
+		p, ok := l.(*ast.ParenExpr)
+		if !ok {
+			break
+		}
+		l = p.X
+	}
+	if _, ok := l.(*ast.Ident); ok {
+		return "gstore"
+	}
+	return "store"
+}
+
 // splittable decides whether a store to designator l should be split (R2):
 // l denotes non-local memory and re-evaluating it has no side effects.
 func (c *fileCtx) splittable(l ast.Expr) bool {
@@ -806,13 +829,13 @@ func (c *fileCtx) assign(n *ast.AssignStmt, inList bool) {
 		if n.Tok == token.ASSIGN {
 			if !c.untypedOrConst(r) {
 				c.replace(n.Pos(), r.Pos(), "{ t__ := ")
-				c.insert(r.End(), fmt.Sprintf("; %s; %s = t__ }", c.yieldText(n.Pos(), "store"), l))
+				c.insert(r.End(), fmt.Sprintf("; %s; %s = t__ }", c.yieldText(n.Pos(), c.storeKind(n.Lhs[0])), l))
 				done = true
 			}
 		} else {
 			op := strings.TrimSuffix(n.Tok.String(), "=")
 			c.replace(n.Pos(), r.Pos(), fmt.Sprintf("{ t__ := %s %s (", l, op))
-			c.insert(r.End(), fmt.Sprintf("); %s; %s = t__ }", c.yieldText(n.Pos(), "store"), l))
+			c.insert(r.End(), fmt.Sprintf("); %s; %s = t__ }", c.yieldText(n.Pos(), c.storeKind(n.Lhs[0])), l))
 			done = true
 		}
 	}
